@@ -321,3 +321,5 @@ def _f13b(w):
 
 
 FINDING_REPLAYS = {"F-C13a": _f13a, "F-C13b": _f13b}
+
+import contracts.c13b  # noqa: E402,F401  (merge_repeated_kwargs: html_attrs repeated keys)
